@@ -12,7 +12,7 @@ from .. import tdfref as R
 from . import kcommon
 
 PROP = "C10"
-RULE = ("states as in C03; per transition four observers of the jump table are compared (open object / disk now / "
+RULE = ("[plus every sequence of 1-3 removals on 6 files with an unused slot between live blocks] " +"states as in C03; per transition four observers of the jump table are compared (open object / disk now / "
         "disk after close / fresh object) on type, format, offset, size, comment and the three dates to the second, "
         "plus nBytes and block reads; in addition every straight-line history up to depth 3 is run in ONE context "
         "with reads in between; non-trivial = states with >= 2 live blocks")
